@@ -1,6 +1,6 @@
 (** * C07 — a snapshot restores a behaviourally identical book *)
 From Bourse Require Import Model.Types Model.Map Model.Side Model.Book Model.Obs Spec.RefBook
-  Proofs.Refine Proofs.Volumes Proofs.Views Proofs.Reload.
+  Proofs.Refine Proofs.Volumes Proofs.Views Proofs.Reload Model.Rng Model.Env Proofs.MarketInv.
 
 (** The snapshot keeps the clock, tick size, traded volume, the order entries
     (with their stored keys), the trade log and the trading flag, and skips
@@ -33,6 +33,22 @@ Proof. intros L s ops Hinv. rewrite (c07_reload_identity s Hinv). split; reflexi
 Theorem c07_reload_step_is_identity : forall s, Inv s -> step_raw s OReload = Ok (s, ONone).
 Proof. intros s Hinv. cbn [step_raw]. rewrite (c07_reload_identity s Hinv). reflexivity. Qed.
 
+(** A multi-asset market serialises its array of books: restoring every book
+    restores the identical market, in every state of a market or of a step
+    environment reached by any sequence of operations (submissions, steps with
+    their shuffled batches, direct per-asset operations, toggles, clock moves):
+    [MInv] (every book satisfies [Inv]) is preserved by each of them. *)
+Theorem c07_market_reload_identity : forall m, MInv m -> map (fun b => of_snapshot (to_snapshot b)) m = m.
+Proof. exact market_reload_identity. Qed.
+
+Theorem c07_market_invariant_preserved : forall L e g o e' g' x,
+  MInv (en_market e) -> Forall mev_u32 (en_queue e) -> eop_u32 o -> menv_apply L e g o = Ok (e', g', x) ->
+  MInv (en_market e') /\ Forall mev_u32 (en_queue e').
+Proof. exact menv_apply_inv. Qed.
+
+Theorem c07_new_market_invariant : forall t0 ticks tr m, market_new t0 ticks tr = Ok m -> MInv m.
+Proof. exact market_new_inv. Qed.
+
 Check c07_reload_identity_every_reachable_state : forall t0 tick tr s0 ops s xs,
   book_new t0 tick tr = Ok s0 -> Forall op_u32 ops -> run_outs s0 ops = Ok (s, xs) ->
   of_snapshot (to_snapshot s) = s.
@@ -53,3 +69,6 @@ Print Assumptions c07_reload_identity.
 Print Assumptions c07_reload_identity_every_reachable_state.
 Print Assumptions c07_indistinguishable.
 Print Assumptions c07_reload_step_is_identity.
+Print Assumptions c07_market_reload_identity.
+Print Assumptions c07_market_invariant_preserved.
+Print Assumptions c07_new_market_invariant.
